@@ -81,6 +81,9 @@ structure EntryOp where
   batch : Nat
   args : List String
   chain : Chain
+  /-- `api.WithResourceType`: carried by the op, looked at by nobody — `GetOrCreateResourceNode` finds the node by the
+      resource NAME and only a newly created node takes the type; every account is per name -/
+  rtype : String := "common"
 deriving DecidableEq, Repr
 
 inductive Op
